@@ -217,6 +217,42 @@ class FileCtx:
                 done.add(name)
                 self.guard(name, None, impl=re.escape(header), why=why)
                 n += 1
+        # default methods of the traits declared in this file
+        for mb in rf.code_finditer(r'(?m)^(?:pub(?:\([^)]*\))?\s+)?trait\s+(\w+)[^{;]*\{', 0, len(rf.src)):
+            if rf.depth[mb.start()] != 0:
+                continue
+            tname = mb.group(1)
+            bo = mb.end() - 1
+            lo, hi = bo + 1, rf.match_brace(bo) - 1
+            done = set()
+            for fm in rf.code_finditer(r'\bfn\s+(\w+)', lo, hi):
+                if rf.depth[fm.start()] != 1 or fm.group(1) in done:
+                    continue
+                j = fm.end()
+                while j < hi and not (rf.code[j] and rf.src[j] in '{;' and rf.depth[j] == 1):
+                    j += 1
+                if j >= hi or rf.src[j] != '{':
+                    continue                      # declaration without a default body
+                name = fm.group(1)
+                if name in skip or (tname, name) in skip or any(isinstance(e, Guard) and e.file == self.rel and e.fn == name and getattr(e, 'block', None) for e in self.unit.entries):
+                    continue
+                done.add(name)
+                self.guard(name, None, why=why, block=r'trait\s+%s\b' % tname)
+                n += 1
+        # free functions of this file
+        havefn = set(e.name for e in self.unit.entries if getattr(e, 'kind', None) == 'fn' and getattr(e, 'file', None) == self.rel)
+        havefn |= set(e.fn for e in self.unit.entries if isinstance(e, Guard) and e.file == self.rel and not e.impl and not getattr(e, 'block', None))
+        for name in rf.list_fns(None, 0):
+            if name in havefn or name in skip:
+                continue
+            try:
+                if any(re.match(r'#\[\s*(test|cfg\(test\))', a) for a in rf.find_fn(name, None, 0)['attrs']):
+                    continue                      # a unit test is not code that runs
+            except KeyError:
+                continue
+            havefn.add(name)
+            self.guard(name, None, why=why)
+            n += 1
         return n
 
     def guard_file(self, why):
@@ -401,7 +437,7 @@ class Unit:
                     # in contracts/trusted_hashes.json (tools/trusted_hashes.py)
                     import hashlib
                     hv = hashlib.sha1(got.encode()).hexdigest()[:16]
-                    key = '%s::stub::%s%s' % (self.name, (e.impl + '::') if e.impl else '', e.fn)
+                    key = '%s::stub::%s%s' % (self.name, (e.impl + '::') if e.impl else ((e.block + '::') if getattr(e, 'block', None) else ''), e.fn)
                     self.trusted_seen = getattr(self, 'trusted_seen', {})
                     self.trusted_seen[key] = hv
                     exp = _trusted_hashes().get(key)
